@@ -144,7 +144,8 @@ def call_extern(ex, f, e):
             ex.assume(ax)
         ex.safe(external.json_ok(s_), 'JSONDecodeError', 'json.loads', e)
         return V(external.json_val(s_))
-    if mod == 'copy' and name == 'deepcopy':
+    if mod == 'copy' and name in ('deepcopy', 'copy'):
+        # (the difference between the two is ownership: see mutate.expr_roots)
         return args[0] if isinstance(args[0], V) else deep_copy(ex, args[0])
     if mod == 're' and name == 'match':
         raise Unsupported('re.match')
@@ -189,7 +190,9 @@ def construct(ex, name, e):
         return V(vobj('Token', [as_val(a) for a in args]))
     if name == 'Graph':
         args, kw = args_of(ex, e)
-        return ex.call_contract('penman.graph', 'Graph.__init__', (args, kw), e)
+        obj = ex.eng.make_param('new_graph', 'Graph', ex.assume, ex)
+        ex.call_contract('penman.graph', 'Graph.__init__', (args, kw), e, self_obj=obj)
+        return obj
     if name == 'Tree':
         args, kw = args_of(ex, e)
         md = kw.get('metadata') or (args[1] if len(args) > 1 else None)
@@ -265,6 +268,9 @@ def class_test(ex, v, cls_e):
         val = ex.env.get(n)
         if isinstance(val, SClass) and val.name in vl.SUBCLASSES:
             return vl.isinstance_cls(v, val.name)
+        if val is not None:
+            # a class passed as a value: which one is not modelled (sound: either answer possible)
+            return fresh('isinstance_' + n, vl.Bool)
     raise Unsupported('isinstance class %s' % ast.unparse(cls_e))
 
 
@@ -463,12 +469,38 @@ def keyf_id(ex, keyf):
     return 'fn'
 
 
+def _bool_gen(ex, e, negate):
+    """any(E for x in xs if C) / all(...): the comprehension of the elements that decide it"""
+    g = e.args[0]
+    if not isinstance(g, (ast.GeneratorExp, ast.ListComp)) or len(g.generators) != 1:
+        raise Unsupported('any()/all() of a non-comprehension')
+    gen = g.generators[0]
+    test = ast.UnaryOp(op=ast.Not(), operand=g.elt) if negate else g.elt
+    probe = ast.ListComp(elt=ast.Constant(value=None),
+                         generators=[ast.comprehension(target=gen.target, iter=gen.iter,
+                                                       ifs=list(gen.ifs) + [test], is_async=0)])
+    ast.copy_location(probe, e)
+    ast.fix_missing_locations(probe)
+    return comprehension(ex, probe, 'list')
+
+
 def bi_any(ex, e):
-    raise Unsupported('any()')
+    a = ex.ev(e.args[0]) if not isinstance(e.args[0], (ast.GeneratorExp, ast.ListComp)) else None
+    if isinstance(a, SDict):
+        # any(d): some key is truthy
+        if a.keys is None:
+            raise Unsupported('any() of an unordered dict')
+        i = fresh('i', vl.Int)
+        return mk_bool(z3.Exists([i], z3.And(i >= 0, i < z3.Length(a.keys), truthy(a.keys[i]))))
+    if a is not None:
+        seq = seq_term(ex, a, e)
+        i = fresh('i', vl.Int)
+        return mk_bool(z3.Exists([i], z3.And(i >= 0, i < z3.Length(seq), truthy(seq[i]))))
+    return mk_bool(z3.Length(_bool_gen(ex, e, False)) > 0)
 
 
 def bi_all(ex, e):
-    raise Unsupported('all()')
+    return mk_bool(z3.Length(_bool_gen(ex, e, True)) == 0)
 
 
 def bi_min(ex, e):
